@@ -195,8 +195,30 @@ def rule_inherit(ctx, f):
             fl.origins(al, fields=flds, passthrough=())
             arg_is_node = "parent" not in flds
             # assignments to the loop-carried node
-            reassign = [(i, s) for i, j, s in F.stmts(b) if s[0] == "assign" and s[1] == [1]]
+            # (the parameter itself, or a variable initialised from it: `let mut node = self;`)
+            node = al
+            for _ in range(6):
+                ds = fl.defs.get(node, [])
+                if len(ds) == 1 and ds[0][0] == "assign" and not ds[0][3] and ds[0][2][0] == "use" and F.op_place(ds[0][2][1]) and len(F.op_place(ds[0][2][1])) == 1 \
+                        and not (1 <= node <= b["argc"]):
+                    node = F.op_place(ds[0][2][1])[0]
+                elif len(ds) == 1 and ds[0][0] == "assign" and not ds[0][3] and ds[0][2][0] == "aggregate" and ds[0][2][1].get("k") == "tuple" and len(ds[0][2][2]) == 1 \
+                        and F.op_place(ds[0][2][2][0]) and len(F.op_place(ds[0][2][2][0])) == 1:
+                    node = F.op_place(ds[0][2][2][0])[0]        # the argument tuple of Fn::call
+                elif len(ds) == 1 and ds[0][0] == "assign" and not ds[0][3] and ds[0][2][0] == "ref" and len(ds[0][2][1]) == 2 and ds[0][2][1][1][0] == "deref":
+                    node = ds[0][2][1][0]                       # a re-borrow `&*node`
+                else:
+                    break
+            lblk = set().union(*[blk for blk in loops.values() if bi in blk])
+            reassign = [(i, s) for i, j, s in F.stmts(b) if s[0] == "assign" and s[1] == [node] and (node == 1 or i in lblk)]
+            init = [(i, s) for i, j, s in F.stmts(b) if s[0] == "assign" and s[1] == [node] and node != 1 and i not in lblk]
             ok_re = bool(reassign)
+            for i, s in init:
+                # the walk starts at the node it was asked about
+                fs = set()
+                src = F.op_local(s[2][1]) if s[2][0] == "use" else None
+                ok_re = ok_re and src is not None and fl.derives_from_arg(src, 1, passthrough=()) and not (fl.origins(src, fields=fs, passthrough=()) and "parent" in fs)
+            ok_re = ok_re and (node == 1 or len(init) == 1)
             for i, s in reassign:
                 # dominated by the call of f and by the `None` test on f's result
                 ok_re = ok_re and cfg.dominates(bi, i)
